@@ -49,18 +49,32 @@ def call_raises(call: ast.Call, callee: str) -> List[str]:
     return out
 
 
-def _fixed_width_unpack(call: ast.Call, callee: str, term_of) -> bool:
-    """``struct.unpack(<const fmt>, buf[a:b])`` with b - a == calcsize(fmt): cannot raise
-    once the buffer is known to hold b bytes (the length guard is C03.B2's obligation)."""
+def _fixed_width_unpack(call: ast.Call, callee: str, term_of, fold=None) -> bool:
+    """``struct.unpack(<const fmt>, buf[a:b])`` -- or ``S.unpack(buf[a:b])`` on a folded
+    ``struct.Struct`` constant -- with b - a == calcsize(fmt): cannot raise once the buffer
+    is known to hold b bytes (the length guard is C03.B2's obligation)."""
     import struct as _st
-    if callee != 'struct.unpack' or len(call.args) != 2 or not isinstance(call.args[0], ast.Constant):
+    from .srcmodel import StructVal
+    fmt = buf = None
+    if callee == 'struct.unpack' and len(call.args) == 2:
+        buf = call.args[1]
+        if isinstance(call.args[0], ast.Constant):
+            fmt = call.args[0].value
+        elif fold is not None:
+            fmt = fold(call.args[0])
+    elif callee.rsplit('.', 1)[-1] == 'unpack' and isinstance(call.func, ast.Attribute) \
+            and len(call.args) == 1 and fold is not None:
+        sv = fold(call.func.value)
+        if isinstance(sv, StructVal):
+            fmt, buf = sv.fmt, call.args[0]
+    if not isinstance(fmt, (str, bytes)) or buf is None:
         return False
     try:
-        width = _st.calcsize(call.args[0].value)
+        width = _st.calcsize(fmt)
     except Exception:
         return False
     try:
-        a = ast.parse(term_of(call.args[1]) if term_of else ast.unparse(call.args[1]), mode='eval').body
+        a = ast.parse(term_of(buf) if term_of else ast.unparse(buf), mode='eval').body
     except SyntaxError:
         return False
     if isinstance(a, ast.Subscript) and isinstance(a.slice, ast.Slice) and a.slice.step is None:
@@ -71,12 +85,25 @@ def _fixed_width_unpack(call: ast.Call, callee: str, term_of) -> bool:
     return False
 
 
-def node_raises(node: ast.AST, term_of=None) -> List[str]:
+def folder(repo: Repo, module: str, cls: Optional[str] = None):
+    """expr -> folded constant (or None) in the scope of ``module`` / ``cls``."""
+    m = repo.module(module)
+    c = m.classes.get(cls) if cls else None
+
+    def fold(e):
+        try:
+            return repo.fold(e, m, c)
+        except Exception:
+            return None
+    return fold
+
+
+def node_raises(node: ast.AST, term_of=None, fold=None) -> List[str]:
     """Library exceptions of one statement/expression (calls + keyed subscripts)."""
     out: List[str] = []
     for call in calls_in(node):
         callee = term_of(call.func) if term_of else ast.unparse(call.func)
-        if _fixed_width_unpack(call, callee, term_of):
+        if _fixed_width_unpack(call, callee, term_of, fold):
             continue
         out.extend(call_raises(call, callee))
     for n in ast.walk(node):
